@@ -716,7 +716,11 @@ pub struct TrainLedger {
 
 /// Plain (unspied) training loop bracketed by the allocation ledger; the previous iteration's input is probed for
 /// sole ownership after the next forward pass.
-pub fn train_ledger(spec: &NetSpec, iters: usize, seed: u64) -> TrainLedger {
+/// `persistent`: one Model object for the whole loop (what outlives an iteration inside it is probed through inputs and
+/// targets; the footprint at a boundary includes the graph the model still holds, whose allocation pattern may
+/// legitimately depend on the data). Otherwise a new Model per iteration, dropped before the boundary reading: then only
+/// parameters and the caller's own arrays are alive and consecutive readings must be identical.
+pub fn train_ledger(spec: &NetSpec, iters: usize, seed: u64, persistent: bool) -> TrainLedger {
     let mut boundaries: Vec<(isize, isize)> = Vec::with_capacity(iters + 2);
     let mut failures: Vec<(usize, String)> = Vec::with_capacity(iters + 2);
     let mut probes = 0u64;
@@ -735,8 +739,6 @@ pub fn train_ledger(spec: &NetSpec, iters: usize, seed: u64) -> TrainLedger {
             drop(params);
             let opt = GradientDescent::new(spec.lr as Float);
             let costf: CostFunction = if spec.ce { cost::cross_entropy() } else { cost::mse() };
-            let refs: Vec<&mut dyn Layer> = layers.iter_mut().map(|s| s as &mut dyn Layer).collect();
-            let mut model = Model::new(refs, &opt, &costf);
             let mut prev: Option<(Array, Array)> = None;
             let mut probe = |what: &str, it: usize, a: Array, failures: &mut Vec<(usize, String)>| {
                 probes += 1;
@@ -746,7 +748,32 @@ pub fn train_ledger(spec: &NetSpec, iters: usize, seed: u64) -> TrainLedger {
                     failures.push((it, format!("{}: {}", what, m)));
                 }
             };
-            for it in 0..iters {
+            if !persistent {
+                for it in 0..iters {
+                    let input = arr_t(&gen_input(&mut r, spec, false));
+                    let mine = input.clone();
+                    let my_target;
+                    {
+                        let refs: Vec<&mut dyn Layer> = layers.iter_mut().map(|s| s as &mut dyn Layer).collect();
+                        let mut model = Model::new(refs, &opt, &costf);
+                        let out = model.forward(input);
+                        let target = arr_t(&gen_target(&mut r, out.dimensions()));
+                        my_target = target.clone();
+                        drop(out);
+                        let _loss = model.backward(target);
+                        let _ = r.chance(1, 4);
+                        model.update();
+                    }
+                    // the model of this iteration is gone: its input and target own their buffers again, and apart from
+                    // the (replaced) parameters nothing of the iteration is left
+                    probe("input of the iteration, its model dropped", it, mine, &mut failures);
+                    probe("target of the iteration, its model dropped", it, my_target, &mut failures);
+                    boundaries.push(ledger::live());
+                }
+            }
+            let refs: Vec<&mut dyn Layer> = layers.iter_mut().map(|s| s as &mut dyn Layer).collect();
+            let mut model = Model::new(refs, &opt, &costf);
+            for it in 0..(if persistent { iters } else { 0 }) {
                 let input = arr_t(&gen_input(&mut r, spec, false));
                 let mine = input.clone();
                 let out = model.forward(input);
@@ -763,7 +790,6 @@ pub fn train_ledger(spec: &NetSpec, iters: usize, seed: u64) -> TrainLedger {
                 let evaluation_only = r.chance(1, 4);
                 if !evaluation_only {
                     model.update();
-                    boundaries.push(ledger::live());
                 }
                 prev = Some((mine, my_target));
             }
